@@ -43,12 +43,12 @@ def SPEC(tier):
     return {'stages': stages, 'only_key_prefixes': ['ubsan/', 'crash', 'tsan/'],
             'assumptions': props.COMMON_ASSUME + ['only what clang 14 ASan/UBSan can observe: type punning through unions and strict-aliasing violations are invisible to it (they are covered only indirectly by the O0/O2 differential of C15)',
                                                    'UBSan reports inside harness code (outside glm/) are logged and ignored; the runtime reports each source location once per process, so one case is recorded per UB site'],
-            'rule': 'the generators of the other properties (exhaustive small-integer domains, subsampled float sweeps, lattices, random cases) and the operation table are executed in ASan+UBSan builds (pure path, AVX2 path, SSE2 path); '
-                    'a failure is any sanitizer report attributed to a file under glm/; non-trivial cases are those of the replayed property'}
+            'rule': 'the generators of the other properties (exhaustive small-integer domains, subsampled float sweeps, lattices, random cases) and the operation table are executed in ASan+UBSan builds (pure, AVX2, SSE2, AVX2 + default aligned gentypes at -O0, AVX2 + operator swizzles; packed objects also at the smallest address offset their type allows), and in ThreadSanitizer builds where two threads evaluate the same operation concurrently; '
+                    'a failure is any sanitizer report attributed to a file under glm/, any ThreadSanitizer report, or a concurrent result that differs from the single-threaded one; non-trivial cases are those of the replayed property'}
 
 
 META = dict(
-    technique='sanitizer-instrumented (ASan, UBSan incl. float-cast-overflow) replay of all other properties\' generators and of the per-configuration operation table; every UBSan report is turned into a keyed failure of the running case',
+    technique='sanitizer-instrumented (ASan, UBSan incl. float-cast-overflow) replay of all other properties\' generators and of the per-configuration operation table (pure, AVX2, SSE2, default-aligned -O0, operator-swizzle libraries); every UBSan report is turned into a keyed failure of the running case; ThreadSanitizer builds of the table with every operation evaluated by two unsynchronised threads (re-entrancy)',
     text='In-domain inputs only (the generators of the other checks honour the documented preconditions), so every report is a violation of this property; UBSan runs in recover mode with a report hook, so the search '
          'continues past known sites. Sampling: shows absence of observable UB on the generated cases, on this compiler.',
     note='Trusts clang 14 sanitizer runtimes; UB that sanitizers cannot see (union punning, aliasing) is out of reach. Known findings are keyed by (target, UBSan check kind, GLM file).',
